@@ -2,4 +2,5 @@ let () =
   match Sys.argv with
   | [| _; "c16" |] -> Drv_c16.run stdin stdout
   | [| _; "c08" |] -> Drv_c08.run stdin stdout
+  | [| _; "c09" |] -> Drv_c09.run stdin stdout
   | _ -> prerr_endline "usage: driver <model>  (script on stdin)"; exit 2
